@@ -67,3 +67,7 @@ pub(crate) fn stub_send_requeue_unreachable(stream: &mut Stream, val: bool) {
     }
     stream.is_pending_send = false;
 }
+
+pub(crate) fn stub_stream_send_data_unreachable(_s: &mut Stream, _len: WindowSize, _max: usize) {
+    panic!("UNREACHABLE-STUB Stream::send_data")
+}
